@@ -501,6 +501,14 @@ func RunScenario(t *testing.T, sc *Scenario, tape []int32) *RunResult {
 				rc.runClient(c)
 			})
 		}
+		for fi := range sc.WS {
+			f := &sc.WS[fi]
+			simsync.GoNamed("ws:"+f.Name, func() {
+				rc.started.Wait()
+				simsync.Sleep(simsync.SiteHarness, time.Duration(f.AtMs)*time.Millisecond)
+				rc.runWSFollower(f)
+			})
+		}
 		finished := runDone.WaitTimeout(time.Duration(sc.RunForMs) * time.Millisecond)
 		if !finished && sc.EndShutdown {
 			var sdDone simsync.Event
